@@ -35,8 +35,8 @@ Definition e1c1 : N := mk_move 4 2 0.
 Definition d5c6 : N := mk_move 35 42 0.
 Definition b7a8q : N := mk_move 49 56 Queen.
 
-(* the engine's Zobrist entries are 64-bit words, and the reverse-token layout of the source is the
-   one the model uses (both re-checked against the regenerated Gen/Zobrist.v on every run) *)
+(* the engine's Zobrist entries are 64-bit words (re-checked against the regenerated Gen/Zobrist.v on
+   every run) *)
 From Chess3 Require Import Proofs.BoardInv Proofs.UndoMove.
 
 Lemma forallb_Forall {A} (f : A -> bool) (P : A -> Prop) l :
@@ -65,8 +65,3 @@ Proof.
   - intros i. cbn [zob_real z_castle]. apply w64l_nthN. exact C.
   - intros f. cbn [zob_real z_ep]. apply w64l_nthN. exact E.
 Qed.
-
-Lemma token_layout_ok :
-  token_layout = [fiftyCntMask; fiftyCntShift; castlingChangeMask; castlingChangeShift;
-                  epChangeMask; epChangeShift; captureMask; captureShift].
-Proof. reflexivity. Qed.
